@@ -65,6 +65,9 @@ def gen(tier, rng):
     for sc in big_scripts(rng, tier):
         if "|" in sc:
             cases.append("!annexbig A " + sc)
+    # one NAL growing through ~80 deliveries to 40 MB (thorough 150 MB): every partial view is a prefix (C08.long_histories)
+    from vlib.props import C08
+    cases.append(C08.long_histories(rng, tier)[0])
     return cases
 
 
@@ -73,6 +76,9 @@ def extra_check(r):
         from vlib.annexb_util import big_check
         d = big_check(r["case"], r["dev"])
         return ("value", d) if d else None
+    if r["case"].lstrip("!").startswith("accumbig"):
+        from vlib.props import C08
+        return C08.big_check(r)
     return None
 
 
